@@ -1155,6 +1155,10 @@ rrul_fill_yly(echs_instant_t *restrict tgt, size_t nti, rrulsp_t rr)
 
 		/* now check the bitset */
 		for (int iy = -2; iy <= 2; iy++) {
+			if (UNLIKELY(y + iy >= 2100U)) {
+				/* shifted beyond the years we can handle */
+				goto fin;
+			}
 			for (bitint_iter_t all = 0UL;
 			     res < nti && (yd = bi383_next(&all, &cand[YSET(iy)]), all);) {
 				for (ENUM_INIT(e, iS, iM, iH);
@@ -1353,6 +1357,10 @@ rrul_fill_mly(echs_instant_t *restrict tgt, size_t nti, rrulsp_t rr)
 
 		/* now check the bitset */
 		for (int iy = -2; iy <= 2; iy++) {
+			if (UNLIKELY(y + iy >= 2100U)) {
+				/* shifted beyond the years we can handle */
+				goto fin;
+			}
 			for (bitint_iter_t all = 0UL;
 			     res < nti && (yd = bi383_next(&all, &cand[YSET(iy)]), all);) {
 				for (ENUM_INIT(e, iS, iM, iH);
